@@ -65,6 +65,7 @@ type Contract struct {
 	Pkg          *types.Package
 	IsIface      bool
 	Allocates    bool
+	KeepOwnMaps  bool // "keeps ownmaps": maps of types written only by this package keep their contents
 	Src          string
 }
 
@@ -645,6 +646,11 @@ func (db *ContractDB) parseLines(lines []srcLine, pkg *types.Package, trusted bo
 				cur.ModifiesSet = true
 			case "allocates":
 				cur.Allocates = true
+			case "keeps":
+				if strings.TrimSpace(rest) != "ownmaps" {
+					db.errf("%s: keeps: only 'ownmaps' is supported", src)
+				}
+				cur.KeepOwnMaps = true
 			case "nopanic":
 				cur.NoPanic = true
 				cur.NoPanicTags = tags
@@ -1526,6 +1532,18 @@ func (env *specEnv) call(x *ast.CallExpr) (T, error) {
 		}
 		d, ds, _, _ := f.mapHeaps(mt)
 		return T{"(select " + e.H(env.cur, d, ds) + " " + m.S + ")", "(Array " + e.sortOf(mt.Key()) + " Bool)", nil}, nil
+	case "mapval":
+		// mapval(m): the whole key -> value function of map m (for frame statements: mapval(m) == old(mapval(m)))
+		m, err := env.eval(x.Args[0])
+		if err != nil {
+			return T{}, err
+		}
+		mt, ok := m.Go.Underlying().(*types.Map)
+		if !ok {
+			return T{}, fmt.Errorf("mapval of non-map")
+		}
+		_, _, v, vs := f.mapHeaps(mt)
+		return T{"(select " + e.H(env.cur, v, vs) + " " + m.S + ")", "(Array " + e.sortOf(mt.Key()) + " " + e.sortOf(mt.Elem()) + ")", nil}, nil
 	case "inslice":
 		// inslice(s, x): x occurs among the elements of slice s
 		if err := argN(2); err != nil {
@@ -1709,6 +1727,23 @@ func (env *specEnv) call(x *ast.CallExpr) (T, error) {
 		e.declFun(fn, []string{acc.Sort, "(Array Int " + esort + ")", "Int", "Int"}, acc.Sort)
 		e.addDecl("axiom:"+fn, "(assert (forall ((i "+acc.Sort+") (a (Array Int "+esort+")) (o Int)) (! (= ("+fn+" i a o 0) i) :pattern (("+fn+" i a o 0)))))")
 		return T{"(" + fn + " " + acc.S + " (select " + e.H(env.cur, h, hs) + " (sarr " + sv.S + ")) (soff " + sv.S + ") (slen " + sv.S + "))", acc.Sort, acc.Go}, nil
+	case "calledwith":
+		// calledwith(fn, x): the reference x was an argument of a call to fn made by this function on this path
+		if err := argN(2); err != nil {
+			return T{}, err
+		}
+		id, ok := x.Args[0].(*ast.Ident)
+		if !ok {
+			return T{}, fmt.Errorf("calledwith: first argument must be a function name")
+		}
+		a, err := env.eval(x.Args[1])
+		if err != nil {
+			return T{}, err
+		}
+		if a.Sort != "Int" {
+			return T{}, fmt.Errorf("calledwith: second argument must be a reference")
+		}
+		return T{"(select " + e.H(env.cur, "ARGS_"+id.Name, "(Array Int Bool)") + " " + a.S + ")", "Bool", boolT}, nil
 	case "called":
 		// called(fn): the named function of this package has been called on this path
 		id, ok := x.Args[0].(*ast.Ident)
@@ -1734,7 +1769,7 @@ func (env *specEnv) call(x *ast.CallExpr) (T, error) {
 			w0 = e.H(f.root.entrySt, "W", "Int") // locals allocated by this activation are not observable
 		}
 		for _, n := range names {
-			if n == "W" || n == "EXCL" || strings.HasPrefix(n, "LAST_") || strings.HasPrefix(n, "CALLED_") || strings.HasPrefix(n, "COUNT_") || strings.HasPrefix(n, "VIS_") || strings.HasPrefix(n, "LASTB_") {
+			if n == "W" || n == "EXCL" || strings.HasPrefix(n, "LAST_") || strings.HasPrefix(n, "CALLED_") || strings.HasPrefix(n, "COUNT_") || strings.HasPrefix(n, "ARGS_") || strings.HasPrefix(n, "VIS_") || strings.HasPrefix(n, "LASTB_") {
 				continue
 			}
 			if e.ver(base, n) == e.ver(env.cur, n) {
@@ -1794,6 +1829,28 @@ func (env *specEnv) call(x *ast.CallExpr) (T, error) {
 		}
 		e.declFun("owner", []string{"Int"}, "Int")
 		return T{"(> (owner " + ref + ") " + e.H(env.old, "W", "Int") + ")", "Bool", boolT}, nil
+	case "newer":
+		// newer(x, y): the object x (backing array of a slice, referent of a pointer/interface) is nil or was
+		// allocated after the object y
+		if err := argN(2); err != nil {
+			return T{}, err
+		}
+		var refs []string
+		for _, ax := range x.Args {
+			a, err := env.eval(ax)
+			if err != nil {
+				return T{}, err
+			}
+			ref := a.S
+			if a.Sort == "Iface" {
+				ref = "(ival " + a.S + ")"
+			} else if a.Sort == "Slice" {
+				ref = "(sarr " + a.S + ")"
+			}
+			refs = append(refs, ref)
+		}
+		e.declFun("owner", []string{"Int"}, "Int")
+		return T{"(or (= " + refs[0] + " 0) (> (owner " + refs[0] + ") (owner " + refs[1] + ")))", "Bool", boolT}, nil
 	case "unchanged":
 		var cs []string
 		for _, a := range x.Args {
